@@ -650,17 +650,40 @@ class Lower:
         return fid, ('FK', self.kind(m, rt, ctx))
 
     # ---- decode: a read expression
-    def rop(self, e, rt, ctx):
+    def rop(self, e, rt, ctx, is_async=False):
+        r = self.rop0(e, rt, ctx)
+        self.check_awaits(e, is_async, ctx)
+        return r
+
+    def check_awaits(self, e, is_async, ctx):
+        """every call on __protocol (and every decode_async) is `.await`ed in an async body, none in a sync body"""
+        def go(x, awaited):
+            if isinstance(x, tuple):
+                if x and x[0] == 'await':
+                    go(x[1], True)
+                    return
+                is_call = (len(x) == 4 and x[0] == 'mcall' and x[1] == PROTO) or \
+                          (len(x) == 3 and x[0] == 'call' and isinstance(x[1], str) and x[1].endswith('::decode_async'))
+                if is_call and awaited != is_async:
+                    fail(ctx, ('read without .await in an async body' if is_async else '.await in a sync body'), x)
+                for y in x:
+                    go(y, False)
+            elif isinstance(x, list):
+                for y in x:
+                    go(y, False)
+        go(e, False)
+
+    def rop0(self, e, rt, ctx):
         while e[0] == 'paren':
             e = e[1]
         if rt[0] == 'box':
             if not (e[0] == 'call' and e[1] == '::std::boxed::Box::new' and len(e[2]) == 1):
                 fail(ctx, 'Box::new(read) expected at a boxed member', e)
-            return ('RBox', self.rop(e[2][0], rt[1], ctx))
+            return ('RBox', self.rop0(e[2][0], rt[1], ctx))
         if rt[0] == 'arc':
             if not (e[0] == 'call' and e[1] == '::std::sync::Arc::new' and len(e[2]) == 1):
                 fail(ctx, 'Arc::new(read) expected at an Arc member', e)
-            return ('RArc', self.rop(e[2][0], rt[1], ctx))
+            return ('RArc', self.rop0(e[2][0], rt[1], ctx))
         if e[0] == 'call' and e[1] == '::pilota::OrderedFloat' and len(e[2]) == 1:
             pc = proto_call(e[2][0])
             if pc != ('read_double', []) or rt != ('k', 'KOrderedF64'):
@@ -722,7 +745,7 @@ class Lower:
                     fail(ctx, 'val.push(read) expected', call)
             if f[2] != ('range', ('num', 0), ('field', ('path', 'list_ident'), 'size')):
                 fail(ctx, 'loop over 0..list_ident.size expected', f[2])
-            return ('RList', self.rop(call[3][0], rt[1], ctx))
+            return ('RList', self.rop0(call[3][0], rt[1], ctx))
         if begin[0] == 'read_set_begin':
             if rt[0] != 'set' or endname != ['read_set_end'] or stmts[0][1] != 'list_ident':
                 fail(ctx, 'set read at Rust type %r' % (rt,))
@@ -730,7 +753,7 @@ class Lower:
                 fail(ctx, 'val.insert(read) expected', call)
             if f[2] != ('range', ('num', 0), ('field', ('path', 'list_ident'), 'size')):
                 fail(ctx, 'loop over 0..list_ident.size expected', f[2])
-            return ('RSet', rt[1], self.rop(call[3][0], rt[2], ctx))
+            return ('RSet', rt[1], self.rop0(call[3][0], rt[2], ctx))
         if begin[0] == 'read_map_begin':
             if rt[0] != 'map' or endname != ['read_map_end'] or stmts[0][1] != 'map_ident':
                 fail(ctx, 'map read at Rust type %r' % (rt,))
@@ -738,7 +761,7 @@ class Lower:
                 fail(ctx, 'val.insert(key, value) expected', call)
             if f[2] != ('range', ('num', 0), ('field', ('path', 'map_ident'), 'size')):
                 fail(ctx, 'loop over 0..map_ident.size expected', f[2])
-            return ('RMap', rt[1], self.rop(call[3][0], rt[2], ctx), self.rop(call[3][1], rt[3], ctx))
+            return ('RMap', rt[1], self.rop0(call[3][0], rt[2], ctx), self.rop0(call[3][1], rt[3], ctx))
         fail(ctx, 'container read not understood', e)
 
 
@@ -914,17 +937,14 @@ def lower_struct(lw, name, decl, fns, ctx0):
             pos = next((i for i, x in enumerate(out) if x[0] in later), len(out))
             out.insert(pos, (n, id_of_member[n], opt, ('FNone',)))
         return out
-    return ('EStruct', name.split('::')[-1], complete(enc, 'encode'), enc_unk, complete(size, 'size'), size_unk, dec)
+    adec = lower_struct_decode(lw, name, fns['decode_async'], rts, keep_member, ctx0 + ' decode_async', True)
+    return ('EStruct', name.split('::')[-1], complete(enc, 'encode'), enc_unk, complete(size, 'size'), size_unk, dec), ('AStruct', adec)
 
 
 def lower_struct_decode(lw, name, text, rts, keep_member, ctx, is_async):
     b = parse_body(text)
     if is_async:
-        # ::std::boxed::Box::pin(async move { .. })
-        t = b[2]
-        if b[1] or not (t and t[0] == 'call' and t[1] == '::std::boxed::Box::pin' and len(t[2]) == 1 and t[2][0][0] == 'async'):
-            fail(ctx, 'Box::pin(async move {..}) expected')
-        b = t[2][0][1]
+        b = unpin(b, ctx)
     stmts = list(b[1])
     tail = b[2]
     count = False
@@ -1127,7 +1147,7 @@ def lower_struct_decode(lw, name, text, rts, keep_member, ctx, is_async):
         rt = rts[member_of[i]]
         if rt[0] == 'opt':
             rt = rt[1]
-        out_arms.append((fid, tt, i, some, lw.rop(rhs, rt, ctx + ' arm %d' % fid), cnt))
+        out_arms.append((fid, tt, i, some, lw.rop(rhs, rt, ctx + ' arm %d' % fid, is_async), cnt))
     return ('mkDS', count, inits, unk, skip_all, ptr, stop_len, begin_len, end_len, out_arms, skip, push, required, late, build, build_unk)
 
 
@@ -1211,11 +1231,22 @@ def lower_union(lw, name, decl, fns, ctx0):
         fid, op = lw.sfield(body, rts[v], ctx + ' variant ' + v)
         size.append((v, fid, False, op))
     dec = lower_union_decode(lw, short, fns['decode'], rts, keep_member, ctx0 + ' decode', False)
-    return ('EUnion', short, enc, enc_unk, size, size_unk, dec)
+    adec = lower_union_decode(lw, short, fns['decode_async'], rts, keep_member, ctx0 + ' decode_async', True)
+    return ('EUnion', short, enc, enc_unk, size, size_unk, dec), ('AUnion', adec)
+
+
+def unpin(b, ctx):
+    """::std::boxed::Box::pin(async move { .. }) -> the inner block"""
+    t = b[2]
+    if b[1] or not (t and t[0] == 'call' and t[1] == '::std::boxed::Box::pin' and len(t[2]) == 1 and t[2][0][0] == 'async'):
+        fail(ctx, 'Box::pin(async move {..}) expected')
+    return t[2][0][1]
 
 
 def lower_union_decode(lw, short, text, rts, keep_member, ctx, is_async):
     b = parse_body(text)
+    if is_async:
+        b = unpin(b, ctx)
     stmts, tail = list(b[1]), b[2]
     if not stmts or stmts[0] != ('let', 'mut ret', ('path', 'None')):
         fail(ctx, '`let mut ret = None;` expected')
@@ -1287,7 +1318,7 @@ def lower_union_decode(lw, short, text, rts, keep_member, ctx, is_async):
         if not mm or r[2][0][2] != [('path', 'field_ident')] or mm.group(1) not in rts:
             fail(ctx, 'arm: ret = Some(%s::<Variant>(field_ident)) expected' % short, r)
         v = mm.group(1)
-        read = lw.rop(ts[0][2], rts[v], ctx + ' variant ' + v)
+        read = lw.rop(ts[0][2], rts[v], ctx + ' variant ' + v, is_async)
         lform, sz = 'LNo', None
         if len(ts) == 3:
             if ts[1][0] == 'expr':
@@ -1338,7 +1369,15 @@ def lower_tuple(lw, name, decl, fns, ctx0):
               and de[2][2][0][1][1] == ('call', '::std::convert::TryFrom::try_from', [('path', 'value')]))
         if not ok or decl[1] != ['i32']:
             fail(ctx0 + ' decode', 'let value = read_i32()?; Ok(TryFrom::try_from(value).map_err(..)?) expected')
-        return ('EEnum', short)
+        da = unpin(parse_body(fns['decode_async']), ctx0 + ' decode_async')
+        ok = (len(da[1]) == 1 and da[1][0][0] == 'let' and da[1][0][1] == 'value' and proto_call(da[1][0][2]) == ('read_i32', [])
+              and da[1][0][2][0] == 'try' and da[1][0][2][1][0] == 'await'
+              and da[2] and da[2][0] == 'call' and da[2][1].endswith('Result::Ok') and len(da[2][2]) == 1 and da[2][2][0][0] == 'try'
+              and da[2][2][0][1][0] == 'mcall' and da[2][2][0][1][2] == 'map_err'
+              and da[2][2][0][1][1] == ('call', '::std::convert::TryFrom::try_from', [('path', 'value')]))
+        if not ok:
+            fail(ctx0 + ' decode_async', 'let value = read_i32().await?; Ok(TryFrom::try_from(value).map_err(..)?) expected')
+        return ('EEnum', short), ('AEnum',)
     if len(decl[1]) != 1:
         fail(ctx0, 'newtype with %d members' % len(decl[1]))
     rt = parse_rtype(decl[1][0])
@@ -1352,18 +1391,24 @@ def lower_tuple(lw, name, decl, fns, ctx0):
     if de[1] or not (t and t[0] == 'call' and t[1].endswith('Result::Ok') and len(t[2]) == 1 and t[2][0][0] == 'call' and t[2][0][1] == short and len(t[2][0][2]) == 1):
         fail(ctx0 + ' decode', 'Ok(%s(read)) expected' % short)
     r = lw.rop(t[2][0][2][0], rt, ctx0 + ' decode')
-    return ('ENewtype', short, e, s, r)
+    da = unpin(parse_body(fns['decode_async']), ctx0 + ' decode_async')
+    t = da[2]
+    if da[1] or not (t and t[0] == 'call' and t[1].endswith('Result::Ok') and len(t[2]) == 1 and t[2][0][0] == 'call' and t[2][0][1] == short and len(t[2][0][2]) == 1):
+        fail(ctx0 + ' decode_async', 'Ok(%s(read)) expected' % short)
+    ra = lw.rop(t[2][0][2][0], rt, ctx0 + ' decode_async', True)
+    return ('ENewtype', short, e, s, r), ('ANewtype', ra)
 
 
 def lower_config(path, top, rust_of, order):
     """path: emitted file; top: its top module (= configuration name); rust_of: {schema name: rust path}; order: schema names in
     schema.txt order -> (names, rows, stats): names = the types of `order` this configuration emits, in that order (the
-    configuration's schema is schema.txt restricted to them, indices renumbered); rows[i] is the row of names[i]"""
+    configuration's schema is schema.txt restricted to them, indices renumbered); rows[i] is the row of names[i] (encode, size,
+    decode), arows[i] its decode_async"""
     code = strip_text(open(path, encoding='utf-8').read())
     decls, impls = scan_items(code, top)
     names = [n for n in order if rust_of[n] in impls]
     index_of_path = {rust_of[n]: i for i, n in enumerate(names)}
-    rows, stats = [], dict(structs=0, unions=0, enums=0, newtypes=0, absent=len(order) - len(names), fields=0, arms=0)
+    rows, arows, stats = [], [], dict(structs=0, unions=0, enums=0, newtypes=0, absent=len(order) - len(names), fields=0, arms=0)
     for n in names:
         rp = rust_of[n]
         if rp not in decls:
@@ -1375,26 +1420,26 @@ def lower_config(path, top, rust_of, order):
         lw = Lower(index_of_path, rp.split('::')[:-1])
         ctx = '%s (%s::%s)' % (n, top, rp)
         try:
-            parse_body(fns['decode_async'])            # parsed (an unknown construct is a translator failure), not lowered
             if d[0] == 'struct':
-                r = lower_struct(lw, rp, d, fns, ctx)
+                r, ar = lower_struct(lw, rp, d, fns, ctx)
                 stats['structs'] += 1
                 stats['fields'] += len(r[2])
                 stats['arms'] += len(r[6][9])
             elif d[0] == 'enum':
-                r = lower_union(lw, rp, d, fns, ctx)
+                r, ar = lower_union(lw, rp, d, fns, ctx)
                 stats['unions'] += 1
                 stats['arms'] += len(r[6][4])
             else:
-                r = lower_tuple(lw, rp, d, fns, ctx)
+                r, ar = lower_tuple(lw, rp, d, fns, ctx)
                 stats['enums' if r[0] == 'EEnum' else 'newtypes'] += 1
         except ParseError as e:
             raise LowerError('%s: body not in the understood subset: %s' % (ctx, e))
         rows.append(r)
+        arows.append(ar)
     extra = sorted(set(impls) - set(rust_of.values()))
     if extra:
         raise LowerError('Message impls of types that are not in the schema: %s' % ', '.join(extra[:5]))
-    return names, rows, stats
+    return names, rows, arows, stats
 
 
 # ------------------------------------------------------------------ Coq text
@@ -1506,6 +1551,33 @@ def coq_row(r):
         du = '(mkDU %s %s %s\n      %s\n      %s %s %s)' % (cbool(d[1]), d[2], d[3], arms, d[5], cbool(d[6]), cbool(d[7]))
         return 'EUnion %s\n      %s %s\n      %s %s\n      %s' % (cstr(r[1]), coq_fields(r[2]), cbool(r[3]), coq_fields(r[4]), cbool(r[5]), du)
     raise LowerError('row %r' % (r[:2],))
+
+
+def coq_ds(d):
+    arms = clist('mkArm %s %s %s %s %s %s' % (cz(a[0]), a[1], cnat(a[2]), cbool(a[3]), coq_rop(a[4]), cbool(a[5])) for a in d[9])
+    return '(mkDS %s %s %s %s %s %s %s %s\n      %s\n      %s %s %s %s\n      %s %s)' % (
+        cbool(d[1]), clist(d[2]), cbool(d[3]), cbool(d[4]), cbool(d[5]), d[6], d[7], d[8], arms, d[10], cbool(d[11]),
+        clist(cnat(x) for x in d[12]), clist('(%s, %s)' % (cnat(v), cbool(o)) for v, o in d[13]),
+        clist('(%s, %s)' % (cstr(n), cnat(v)) for n, v in d[14]), cbool(d[15]))
+
+
+def coq_du(d):
+    arms = clist('mkUArm %s %s %s %s %s' % (cz(a[0]), cstr(a[1]), coq_rop(a[2]), a[3], 'None' if a[4] is None else '(Some %s)' % coq_vop(a[4]))
+                 for a in d[4])
+    return '(mkDU %s %s %s\n      %s\n      %s %s %s)' % (cbool(d[1]), d[2], d[3], arms, d[5], cbool(d[6]), cbool(d[7]))
+
+
+def coq_arow(r):
+    k = r[0]
+    if k == 'AEnum':
+        return 'AEnum'
+    if k == 'ANewtype':
+        return 'ANewtype %s' % coq_rop(r[1])
+    if k == 'AStruct':
+        return 'AStruct\n      %s' % coq_ds(r[1])
+    if k == 'AUnion':
+        return 'AUnion\n      %s' % coq_du(r[1])
+    raise LowerError('arow %r' % (r[:1],))
 
 
 def coq_schema(schema_txt, only=None):
@@ -1624,12 +1696,12 @@ def coq_schema(schema_txt, only=None):
 
 
 def coq_file(schema_txt, tables, digest):
-    """tables: {cfg: (names, rows)}"""
+    """tables: {cfg: (names, rows, arows)}"""
     out = ['(* GENERATED at check time by tools/emitted_ops.py from the code the real pilota-build emitted for the corpus',
            '   (.cache/gen_out*/<cfg>.rs) and from its lowered schema (schema.txt) -- do not edit.  digest: %s *)' % digest,
            'From Coq Require Import String.', 'From PVGen Require Import EmitOps.', 'Open Scope Z_scope.', '']
     for cfg in sorted(tables):
-        names, rows = tables[cfg]
+        names, rows, arows = tables[cfg]
         decls, names2 = coq_schema(schema_txt, only=names)
         if names2 != list(names):
             raise LowerError('schema.txt order and table order differ')
@@ -1639,6 +1711,10 @@ def coq_file(schema_txt, tables, digest):
         out.append('')
         out.append('Definition emitted_%s : list erow :=' % cfg)
         out.append('  [ ' + ';\n    '.join('(* %d %s *) %s' % (i, names[i], coq_row(r)) for i, r in enumerate(rows)) + ' ].')
+        out.append('')
+        out.append('(* decode_async of the same types *)')
+        out.append('Definition emitted_%s_async : list arow :=' % cfg)
+        out.append('  [ ' + ';\n    '.join('(* %d %s *) %s' % (i, names[i], coq_arow(r)) for i, r in enumerate(arows)) + ' ].')
         out.append('')
     return '\n'.join(out)
 
